@@ -101,6 +101,17 @@ def c15_jobs(rng, quick, nhist, nenc):
             colour.append(gen.enc(sym, c if isinstance(c, (list, bytes)) else onedim.U(c), p, api="EncodeWithColor", scheme=C11.scheme(k)))
             colour[-1]["skey"] = json.dumps(colour[-1]["scheme"], sort_keys=True)
             colour.append(gen.enc(sym, c if isinstance(c, (list, bytes)) else onedim.U(c), p))
+    # misuse that must stay local: WithColor calls with an incomplete colour scheme (only one field set), dropped unobserved, each followed by plain
+    # encodes of every family, which are compared with fresh processes like everything else in this block
+    red = dict(t="rgba", v=[200, 0, 0, 255])
+    white = dict(t="rgba", v=[255, 255, 255, 255])
+    for k, partial in enumerate(("fg", "bg", "model", "zero")):
+        for (sym, c, p) in gen.SAMPLES[k::4] + gen.SAMPLES[:2]:
+            cc = c if isinstance(c, (list, bytes)) else onedim.U(c)
+            poke = gen.enc(sym, cc, p, api="EncodeWithColor", scheme=dict(model="rgba", fg=red, bg=white, partial=partial))
+            poke["op"] = "poke"
+            colour.append(poke)
+            colour.append(gen.enc(sym, cc, p))
     for j in var + colour:
         hid += 1
         jobs.append(dict(j, hid=hid, proj="digest", hist=h, skey=j.get("skey", ""), mustshot=True))
